@@ -376,6 +376,31 @@ func (p *c09) condViaClient(x *res, s c09Str, names map[string]string, values va
 		x.r.Counters["client_replays"]++
 		x.set("client-classes", put.Class)
 		wit := map[string]interface{}{"adapter": adapter, "expression": s.s, "derived_by": s.kind, "names": n2, "values": v2, "put": put, "scan": scan, "scan_empty_table": scanEmpty, "query_empty_partition": queryEmpty}
+		if strings.Trim(s.s, " \t\r\n") == "" {
+			// an expression that is GIVEN but empty or blank is not "no condition": it is refused - by every write,
+			// whether the item exists or not - and changes nothing
+			before := cl.Do(adapt.Op{Kind: adapt.OpGet, Table: spec.Name, Key: val.Item{"h": val.Str("k")}})
+			for wi, w := range []adapt.Op{
+				{Kind: adapt.OpPut, Table: spec.Name, Item: it2, Cond: s.s, CondSet: true},
+				{Kind: adapt.OpDelete, Table: spec.Name, Key: val.Item{"h": val.Str("k")}, Cond: s.s, CondSet: true},
+				{Kind: adapt.OpUpdate, Table: spec.Name, Key: val.Item{"h": val.Str("k")}, Update: "SET marker = :m", Values: val.Item{":m": val.Str("updated")}, Cond: s.s, CondSet: true},
+				{Kind: adapt.OpPut, Table: spec.Name, Item: val.Item{"h": val.Str("absent"), "marker": val.Str("written")}, Cond: s.s, CondSet: true},
+				{Kind: adapt.OpDelete, Table: spec.Name, Key: val.Item{"h": val.Str("absent")}, Cond: s.s, CondSet: true},
+			} {
+				o := cl.Do(w)
+				x.r.Evals++
+				x.r.Counters["blank_conditions_sent"]++
+				bw := map[string]interface{}{"adapter": adapter, "expression": s.s, "write": w, "outcome": o}
+				if o.Class == adapt.ClsRuntime {
+					x.viol("client-runtime-panic", o.Site, fmt.Sprintf("[%s] %s with the blank ConditionExpression %q: runtime panic at %s: %s", adapter, w.Kind, s.s, o.Site, o.Msg), bw)
+				} else if o.Class == adapt.ClsOK || o.Class == adapt.ClsCondFailed {
+					x.viol("client-accepts-non-sentence", fmt.Sprintf("blank-condition/%s", w.Kind), fmt.Sprintf("[%s] %s (#%d) with the ConditionExpression %q - given, but empty: class %s; an empty text is no condition expression, the request is invalid", adapter, w.Kind, wi, s.s, o.Class), bw)
+				}
+			}
+			if g := cl.Do(adapt.Op{Kind: adapt.OpGet, Table: spec.Name, Key: val.Item{"h": val.Str("k")}}); !val.ItemsEqual(g.Item, before.Item) {
+				x.viol("rejected-request-changed-item", "blank-condition", fmt.Sprintf("[%s] writes with the blank ConditionExpression %q changed the stored item to %s", adapter, s.s, g.Item.Canon()), nil)
+			}
+		}
 		// and the other way round: an expression that is evaluated for a stored item without complaint is not
 		// refused where there is nothing to evaluate it for
 		if scan.Class == adapt.ClsOK {
@@ -396,7 +421,7 @@ func (p *c09) condViaClient(x *res, s c09Str, names map[string]string, values va
 				x.viol("client-runtime-panic", o.out.Site, fmt.Sprintf("[%s] %s with expression %q: runtime panic at %s: %s", adapter, o.name, s.s, o.out.Site, o.out.Msg), wit)
 			}
 			if strings.TrimSpace(strings.ReplaceAll(s.s, "\x00", "")) == "" {
-				continue // an empty condition is "no condition" at the API
+				continue // (sent as "no condition"; the empty text itself is sent below)
 			}
 			accepted := o.out.Class == adapt.ClsOK || o.out.Class == adapt.ClsCondFailed
 			if accepted && !sentence {
